@@ -19,7 +19,7 @@ RULE = ("one case = one problem (qp / qp_quartic / qp_softplus / rosenbrock / be
         "distinct = distinct (problem, k)")
 ASSUMPTIONS = [
     "only checkpoints stopped by the iteration limit qualify (premise of the statement)",
-    "next-iterate tolerance 1e-9 relative (restored pairs equal the originals only to rounding: the checkpoint stores differences); "
+    "next-iterate tolerance 1e-9 relative, 1e-6 with finite-difference gradients (restored pairs equal the originals only to rounding: the checkpoint stores differences); "
     "restored-pair tolerance 8 eps * max|history| elementwise",
     "evaluation counts of restart vs uninterrupted run are recorded, not demanded",
     "chain links are judged against the continuation of the run they restart; against the original run only while every update was accepted",
@@ -41,7 +41,9 @@ def cases(tier, seed):
         ps = gen.rand_spec(rng, FAMS, nmax=8, nmin=2, boxes=("none", "mixed", "boxed", "lower", "upper"),
                            starts=("interior", "face", "vertex", "outward"), condmax=1e3)
         yield {"problem": ps, "maxcor": int(rng.integers(1, 8)), "K": int(rng.integers(4, 13)), "maxls": int(gen.pick(rng, [5, 20, 20])),
-               "long_chain": bool(rng.random() < 0.25)}
+               "long_chain": bool(rng.random() < 0.25), "eps": float(gen.pick(rng, [1e-8, 1e-8, 1e-3, 1e-1])),
+               "jac": gen.pick(rng, ["callable", "callable", "callable", None, "2-point"]),
+               "maxfun": int(gen.pick(rng, [100000, 100000, 60, 120, 250]))}
 
 
 def relerr(a, b):
@@ -107,7 +109,14 @@ def run(spec):
 
     out = Outcome()
     P = gen.make_problem(spec["problem"])
-    base = dict(jac="callable", maxcor=spec["maxcor"], maxls=spec["maxls"], ftol=0.0, gtol=1e-12, maxfun=100000)
+    base = dict(jac=spec.get("jac", "callable"), maxcor=spec["maxcor"], maxls=spec["maxls"], ftol=0.0, gtol=1e-12,
+                maxfun=spec.get("maxfun", 100000), eps=spec.get("eps", 1e-8), x0_same_object=True)
+    XT = 1e-9
+    if base["jac"] != "callable":
+        out.count("finite_difference_problems")
+        # a finite-difference gradient turns the rounding-level differences of the restored history into differences of
+        # order eps_machine*|f|/h ~ 1e-8 in the gradient: "equal up to rounding" is judged at that level
+        XT = 1e-6
     K = spec["K"]
     tags = dict(family=P.spec["family"])
     keys = set()
@@ -119,7 +128,7 @@ def run(spec):
         return runs[k]
 
     def restart(ck, k, **over):
-        return probes.run_min(P, dict(base, maxiter=k, **over), checkpoint=ck, x0=np.array(ck.x, dtype=float, copy=True))
+        return probes.run_min(P, dict(base, maxiter=k, **over), checkpoint=ck, x0=ck.x)  # x0=result.x itself, as users write it
 
     for k in range(1, K + 1):
         a = full(k)
